@@ -9,6 +9,7 @@ import (
 	sdk "github.com/cosmos/cosmos-sdk/types"
 	authtypes "github.com/cosmos/cosmos-sdk/x/auth/types"
 	banktypes "github.com/cosmos/cosmos-sdk/x/bank/types"
+	"github.com/cosmos/cosmos-sdk/x/feegrant"
 	aoltypes "github.com/medibloc/panacea-core/v2/x/aol/types"
 	didtypes "github.com/medibloc/panacea-core/v2/x/did/types"
 	pnfttypes "github.com/medibloc/panacea-core/v2/x/pnft/types"
@@ -76,6 +77,24 @@ func C15(t Tier) int {
 	bases := map[string]func() *world.World{
 		"empty":     func() *world.World { return world.New(world.Options{Accounts: []*world.Account{e.A, e.B, e.W, e.F}}) },
 		"populated": func() *world.World { return populated(e) },
+		// the topic owner A has granted fee payer F a fee allowance, and F cannot afford a 1000umed fee itself: a transaction that
+		// names no fee granter is simply refused for insufficient funds - nobody else pays
+		"sponsored": func() *world.World {
+			w := populated(e)
+			must := func(spec world.TxSpec) {
+				if res := w.Send(spec); res.Code != 0 {
+					panic("sponsored base: " + res.Log)
+				}
+			}
+			grant, err := feegrant.NewMsgGrantAllowance(&feegrant.BasicAllowance{}, e.A.Addr, e.F.Addr)
+			if err != nil {
+				panic(err)
+			}
+			must(world.TxSpec{Msgs: []sdk.Msg{grant}, Signers: []*world.Account{e.A}})
+			bal := w.App.BankKeeper.GetBalance(w.Ctx(), e.F.Addr, "umed")
+			must(world.TxSpec{Msgs: []sdk.Msg{banktypes.NewMsgSend(e.F.Addr, e.B.Addr, sdk.NewCoins(sdk.NewCoin("umed", bal.Amount.SubRaw(500))))}, Signers: []*world.Account{e.F}})
+			return w
+		},
 	}
 	// a second fee payer whose address bytes compare to the writer's the other way round than F's do
 	var otherSide *world.Account
@@ -194,6 +213,9 @@ func C15(t Tier) int {
 								addSigner(a)
 							}
 						}
+						if bn == "sponsored" && arr == 1 && !fee.IsZero() {
+							expectOK = false // F cannot pay; the allowance may only be used when the transaction names A as granter
+						}
 						for i, mi := range cur {
 							if arr == 5 {
 								break
@@ -263,13 +285,18 @@ func C15(t Tier) int {
 						for a := range balAfter {
 							addrs[a] = true
 						}
+						// a payer that cannot afford the declared fee makes the ante handler refuse the transaction: nothing is charged
+						charged := fee
+						if !balBefore[payer].IsAllGTE(fee) {
+							charged = nil
+						}
 						for a := range addrs {
 							want := balBefore[a]
 							switch a {
 							case payer:
-								want = want.Sub(fee...)
+								want = want.Sub(charged...)
 							case feeCollector:
-								want = want.Add(fee...)
+								want = want.Add(charged...)
 							}
 							if !want.IsEqual(balAfter[a]) {
 								who := a
@@ -309,7 +336,7 @@ func C15(t Tier) int {
 	sort.Strings(oc)
 	run.Coverage["evaluations"] = evals
 	run.Coverage["distinct_nontrivial"] = okTx + failedTx
-	run.Coverage["rule"] = "in each base state (empty, populated) every transaction of 1..3 messages drawn from {one succeeding, one failing message per custom module} x fee in {0, 1000umed, 1000umed+5uxyz} x arrangement in {single signer A; add-record with named fee payer F first (signers [F,W]); the same with a fee payer sorting on the other side of the writer; messages of A and B alternating; messages of A followed by an add-record naming fee payer F (signers [A,F,W], payer A); the same one-shot message twice in one transaction (must fail as a whole)}, delivered on a fork of the real deliver state; all bank balances and the total supply are compared before/after. non-trivial = transactions that reached DeliverTx with the expected verdict"
+	run.Coverage["rule"] = "in each base state (empty, populated, sponsored = populated + a fee allowance from the topic owner to a fee payer who cannot afford the fee) every transaction of 1..3 messages drawn from {one succeeding, one failing message per custom module} x fee in {0, 1000umed, 1000umed+5uxyz} x arrangement in {single signer A; add-record with named fee payer F first (signers [F,W]); the same with a fee payer sorting on the other side of the writer; messages of A and B alternating; messages of A followed by an add-record naming fee payer F (signers [A,F,W], payer A); the same one-shot message twice in one transaction (must fail as a whole)}, delivered on a fork of the real deliver state; all bank balances and the total supply are compared before/after. non-trivial = transactions that reached DeliverTx with the expected verdict"
 	run.Coverage["samples"] = samples
 	run.Coverage["exhaustive"] = true
 	run.Coverage["succeeded"] = okTx
